@@ -25,6 +25,10 @@ func TestMain(m *testing.M) {
 			"TestAmplification: 1-4 requests with 0..60 addresses (public same-IP / public foreign-IP / public DNS / private / loopback / unroutable / private DNS / malformed, "+
 			"x 7 transports x generated CanDial mask), malformed / wrong-type / partial / late request bodies, 11 dial-data behaviours. "+
 			"TestRateLimits: 3..28 requests of 1..5 peers over several virtual minutes (bursts, trickles, arrivals aligned to 60 s after an earlier one +-1 ns), small generated limits. "+
+			"TestPeerConcurrency: 1..3 episodes of 3..9 requests of ONE peer (now and then interleaved with another peer's) 0 ns..3 s apart, most of them needing dial data or long-lived "+
+			"(client sits on its stream, dial-back hangs or takes seconds, slow dial data), against a concurrency limit of 1..4 combined with a second tight limit "+
+			"(dial-data window 0..2 / per-peer window / global window / all / none): requests of a peer are turned away at every stage of the limiter while others of its requests are in flight "+
+			"and more of its requests follow (labels inflight-rejection:*). "+
 			"Non-trivial = the server asked for dial data (a foreign-IP / DNS address was selected) or a request was rejected by a limit; "+
 			"distinct = distinct structured scenario (limits, CanDial mask, observed addresses, per request: arrival, class/transport vector, body kind, write timing, dial-data behaviour, dial-back script).",
 		"address classes are fixed by construction of the templates; TestTemplateClasses cross-checks them against manet.IsPublicAddr (trusted definition of 'public')",
@@ -37,7 +41,7 @@ func TestMain(m *testing.M) {
 }
 
 // runCase executes one scenario in a bubble, judges it and records coverage.
-func runCase(t *testing.T, rt *rapid.T, name string, sc *scenario) {
+func runCase(t *testing.T, rt *rapid.T, name string, sc *scenario, genLabels ...string) {
 	var v *verdict
 	hx.Bubble(t, rt, func() {
 		res := runScenario(sc, rt.Fatalf)
@@ -45,6 +49,9 @@ func runCase(t *testing.T, rt *rapid.T, name string, sc *scenario) {
 	})
 	if v == nil {
 		return
+	}
+	for _, l := range genLabels {
+		v.labels[l] = true
 	}
 	labels := sortedKeys(v.labels)
 	stats.Case(name, sc.fingerprint(), v.nontrivial, labels...)
@@ -164,6 +171,21 @@ func TestRateLimits(t *testing.T) {
 			sc.Reqs = append(sc.Reqs, r)
 		}
 		runCase(t, rt, name, sc)
+	})
+}
+
+// TestPeerConcurrency: episodes of concurrent requests of one peer against a small
+// concurrency limit while a second limit is exhausted (see episode_test.go).
+func TestPeerConcurrency(t *testing.T) {
+	name := t.Name()
+	hx.Check(t, 6000, 240000, 0, func(rt *rapid.T) {
+		sc := &scenario{}
+		var sec int
+		sc.Limits, sec = drawEpisodeLimits(rt)
+		sc.Mask = drawMask(rt)
+		sc.Peers = drawPeers(rt, 3)
+		drawEpisodes(rt, sc)
+		runCase(t, rt, name, sc, "gen:second-limit:"+secondNames[sec])
 	})
 }
 
